@@ -4,7 +4,7 @@ S=$1; shift; PRIMARY=$1
 summary=""; caught=0
 for ID in "$@"; do
   out=$(/verif/tools/check_tree.sh /tmp/seed/$S "$ID" --tier ${TIER:-quick} 2>&1); rc=$?
-  nv=$(echo "$out" | grep -c '^VIOLATION'); first=$(echo "$out" | grep -m1 'sig=' | sed 's/^ *sig=\([^ ]*\).*/\1/' | cut -c1-150)
+  nv=$(echo "$out" | grep -c '^VIOLATION'); first=$(echo "$out" | grep -v '^KNOWN-FINDING' | grep -m1 'sig=' | sed 's/^ *sig=\([^ ]*\).*/\1/' | cut -c1-150)
   summary="$summary$ID rc=$rc ($nv sigs${first:+, e.g. $first}); "
   [ "$ID" = "$PRIMARY" ] && [ $rc -eq 1 ] && caught=1
   [ $rc -eq 2 ] && echo "$out" | tail -5
